@@ -21,8 +21,17 @@ impl BananaShower {
             let mut count = 0;
 
             while time <= end_time {
-                time += spacing;
+                let next_time = time + spacing;
                 count += 1;
+
+                // * For very late or very short showers `spacing` is below half
+                // * an ulp of `time` so the f32 addition makes no progress
+                // * and the loop would never terminate.
+                if next_time <= time {
+                    break;
+                }
+
+                time = next_time;
             }
 
             count
